@@ -41,6 +41,36 @@ def find_call(v, suffix):
     return None
 
 
+def loaders(cfg, crate, rep):
+    # loaders
+    nl = 0
+    for fn, target in LOADS.items():
+        if fn not in crate.bodies:
+            if fn in ("certificate::CertificateParams::from_ca_cert_pem", "csr::CertificateSigningRequestParams::from_pem", "key_pair::SubjectPublicKeyInfo::from_pem") and cfg in ("K0",):
+                continue
+            if cfg == "K3" and fn.startswith("key_pair::KeyPair"):
+                continue
+            rep.fail("C14.load", "%s|%s" % (cfg, fn), "PEM loader missing")
+            continue
+        rep.fn(fn)
+        I = Interp(crate)
+        v = I.run_fn(fn)["value"]
+        cs = calls_of(v)
+        tgt = find_call(v, target) if target != "try_from" else find_call(v, "::try_from")
+        ok_t = (tgt is not None) or (target == "try_from" and ".try_from" in v.r())
+        parse = find_call(v, "pem::parse")
+        ok_p = parse is not None and places(parse) == {"pem_str"}
+        # contents (not the tag, not the whole text) flow into the DER entry point
+        cont = any(c.endswith(("Pem::contents", "Pem::into_contents")) for c in cs)
+        nl += 1
+        # the loader must not dispatch on the label: rcgen writes every private key under "PRIVATE KEY" whatever encoding
+        # the stored document has (aws-lc-rs keeps SEC1 / PKCS#1 input as is), so only sniffing the DER round-trips
+        tagged = sorted({c for c, a_, n_, cd_, f_ in I.calls if c.endswith(("Pem::tag", "Pem::headers"))})
+        rep.ob("C14.load", "%s|%s|label-independent" % (cfg, fn), not tagged, "the loader does not let the PEM label decide how the contents are parsed", found=tagged)
+        rep.ob("C14.load", "%s|%s" % (cfg, fn), ok_t and ok_p and cont, "the loader parses the envelope and hands its *contents* to the DER entry point", expected="pem::parse(pem_str) -> contents -> %s" % target, found=core(v).r()[:200])
+    rep.floor("C14.load", "PEM loaders (%s)" % cfg, nl, 6 if cfg in ("K1", "K2") else 0)
+
+
 def run(ctx):
     rep = ctx.rep
     for cfg in (CONFIGS_QUICK if ctx.tier == "quick" else CONFIGS_THOROUGH):
@@ -87,7 +117,7 @@ def run(ctx):
                 continue
             for callee, node, ps in common.calls_in(b):
                 if callee.startswith("pem::") and ("encode" in callee.split("::")[-1]):
-                    enc_sites.setdefault(callee, set()).add(name)
+                    enc_sites.setdefault(callee, set()).update(common.known_owners(crate, name))
         rep.ob("C14.config", "%s|only-encode_config" % cfg, set(enc_sites) == {"pem::encode_config"}, "only pem::encode_config is used to produce PEM (pem::encode defaults to CRLF)", found=sorted(enc_sites))
         rep.ob("C14.config", "%s|encode_config-callers" % cfg, enc_sites.get("pem::encode_config", set()) == set(SITES), "PEM is produced by exactly the five audited accessors (positive control)", expected=sorted(SITES), found=sorted(enc_sites.get("pem::encode_config", [])))
         # ENCODE_CONFIG initialiser
@@ -110,29 +140,7 @@ def run(ctx):
                     if p["k"] == "Expr" and p["e"]["k"] == "Lit":
                         arms[p["e"]["v"]] = (a["body"].get("def") or a["body"].get("ctor_of") or "").split("::")[-1]
         rep.ob("C14.config", "%s|ENCODE_CONFIG|arms" % cfg, arms == {True: "CRLF", False: "LF"}, "windows -> CRLF, otherwise -> LF", found=arms)
-        # loaders
-        nl = 0
-        for fn, target in LOADS.items():
-            if fn not in crate.bodies:
-                if fn in ("certificate::CertificateParams::from_ca_cert_pem", "csr::CertificateSigningRequestParams::from_pem", "key_pair::SubjectPublicKeyInfo::from_pem") and cfg in ("K0",):
-                    continue
-                if cfg == "K3" and fn.startswith("key_pair::KeyPair"):
-                    continue
-                rep.fail("C14.load", "%s|%s" % (cfg, fn), "PEM loader missing")
-                continue
-            rep.fn(fn)
-            I = Interp(crate)
-            v = I.run_fn(fn)["value"]
-            cs = calls_of(v)
-            tgt = find_call(v, target) if target != "try_from" else find_call(v, "::try_from")
-            ok_t = (tgt is not None) or (target == "try_from" and ".try_from" in v.r())
-            parse = find_call(v, "pem::parse")
-            ok_p = parse is not None and places(parse) == {"pem_str"}
-            # contents (not the tag, not the whole text) flow into the DER entry point
-            cont = any(c.endswith(("Pem::contents", "Pem::into_contents")) for c in cs)
-            nl += 1
-            rep.ob("C14.load", "%s|%s" % (cfg, fn), ok_t and ok_p and cont, "the loader parses the envelope and hands its *contents* to the DER entry point", expected="pem::parse(pem_str) -> contents -> %s" % target, found=core(v).r()[:200])
-        rep.floor("C14.load", "PEM loaders (%s)" % cfg, nl, 6 if cfg in ("K1", "K2") else 0)
+        loaders(cfg, crate, rep)
     import os, facts
     lock = open(os.path.join(facts.REPO, "Cargo.lock")).read()
     i = lock.find('name = "pem"')
